@@ -10,6 +10,7 @@ pub mod c10;
 pub mod c11;
 pub mod c12;
 pub mod c13;
+pub mod c14;
 pub mod c19;
 
 use crate::engine::Runner;
@@ -30,6 +31,7 @@ pub fn run(id: &str, r: &mut Runner) {
         "C11" => c11::run(r),
         "C12" => c12::run(r),
         "C13" => c13::run(r),
+        "C14" => c14::run(r),
         "C19" => c19::run(r),
         _ => {
             println!("HARNESS-ERROR property {id} has no check yet");
